@@ -12,6 +12,7 @@ hooks = [l.split()[0] for l in log if l.split(" ", 1)[1].startswith("verif hooks
 E = {
  "E1": ("harness/e1.py", "scheduler: TLC model checking of spec/Scheduler.tla against spec/SchedObs.tla, schedule-exhaustive controlled executions of the real scheduler through the hooks, each validated by TLC against spec/SchedTrace.tla"),
  "E4": ("harness/e4.py", "life-cycle: histories of operations (calls, failing calls, setup, executors, re-runs, deep copies, compose, config reload, caching runs, restarts) on real DAG instances; every step validated by TLC against spec/Lifecycle.tla through spec/LifecycleTrace.tla"),
+ "E2": ("harness/e2.py", "recorder and dataflow: generated describing functions (all argument forms, indexing, unpack_to, operators, and_/or_/not_, return shapes, nested DAGs, activation flags) run on the real library under random configurations; TLC evaluates the reference semantics spec/Dataflow.tla on every observation (spec/DfCheck.tla) and explores all schedules of the abstract results map (spec/DataflowMC.tla)"),
  "E3": ("harness/e3.py", "graph algebra: spec/Selection.tla and spec/CompoundPriority.tla evaluated by TLC (spec/SelCheck.tla, spec/CpCheck.tla) on every observation of executor / setup / call selections, debug settings, priority tables and mc=1 orders made on the real library"),
 }
 CHECKS = {
@@ -31,6 +32,11 @@ CHECKS = {
         "trusted: TLC, the node_enter / exec_begin hooks, the harness's comparison of returned values with a freshly built DAG; bounds: three template DAGs, all histories of length <= 2 over a 27-operation alphabet (sampled in the quick tier) plus random histories up to length ~9",
         "TLC trace validation of operation histories against an explicit TLA+ state machine of the library's life-cycle")
     for p in ["C11", "C15", "C18"]},
+ **{p: ("E2",
+        "the sequential reference semantics of describing functions is written in TLA+ (Eval in spec/Dataflow.tla); TLC explores every schedule of the abstract write-once results map for flat programs and shows the returned value equals Eval (spec/DataflowMC.tla); thousands of generated programs x argument tuples x configurations are run on the real library and TLC compares every returned value and executed call-site set with Eval (spec/DfCheck.tla); a plain-Python evaluation is a cross-check of the oracle",
+        "trusted: TLC, the node_enter hook, the JSON encoding of values; bounds: generated programs up to 8 call sites and nesting depth 3, a closed value domain (ints, bools, None, strings, tuples, lists, dicts); real schedules are not controlled here (see E1)",
+        "TLA+ reference semantics as executable oracle (TLC) over generated programs run on the real library + TLC model checking of schedule independence")
+    for p in ["C01", "C10", "C20"]},
 }
 checks = []
 for p in sorted(CHECKS):
